@@ -162,9 +162,13 @@ def judge(cases, runs):
             if len(posters) >= 2 or any(h[0] == "call" and h[2] == "stop" for h in hist):
                 nontriv.add(sx.dumps(hist) + final)
     verdicts = vplib.driver_lines(["queue-accept"], acc_in) if acc_in else []
+    gaveup = 0
     for v, (ci, sd, hist, final) in zip(verdicts, where):
+        if v == "giveup":
+            gaveup += 1          # the linearisation search ran out of its budget: this history is not judged (counted in the evidence)
+            continue
         if v != "ok":
             viol.append((ci, sd, "history not accepted by the queue transition system (final worker state %s): %s" % (final, sx.dumps(hist))))
-    extra = {"histories_checked_by_linearisation": len(acc_in), "case_kinds": vplib._count(c["kind"] + "/" + c["sched"][0] for c in cases),
+    extra = {"histories_checked_by_linearisation": len(acc_in) - gaveup, "linearisation_search_gave_up": gaveup, "case_kinds": vplib._count(c["kind"] + "/" + c["sched"][0] for c in cases),
              "dfs_complete": vplib._count(str(c.get("dfs_complete")) for c in cases if c["sched"][0] == "dfs")}
     return {"violations": viol, "unshown": unshown, "nontrivial": nontriv, "extra": extra}
